@@ -288,7 +288,10 @@ where `old` is the essence stored on the object as LAST HANDLED (`none`: nothing
 handlers at all), `new` the essence of the event's body and `seen` the essence of the previously
 processed event. Essences are abstracted to `Nat`. -/
 structure Ev where
-  t : Int                       -- loop time at which the event is processed
+  recv : Int := 0               -- loop time at which the processing cycle of the event began (`process_resource_event`);
+                                -- not read by the code: only the statements about "when the change was received" use it
+  t : Int                       -- loop time at which the event reaches `process_spawning_cause` (after indexing and
+                                -- the `@kopf.on.event` handlers of the cycle): the instant a reset is stamped with
   ess : Nat                     -- essence of the event's body (`new`)
   lastHandled : Option Nat      -- last-handled essence the body carries (`old`)
   deriving DecidableEq, Repr
@@ -327,6 +330,25 @@ def essentialAfter : Nat → List Ev → List Int
 def essentialTimes : List Ev → List Int
   | [] => []
   | e :: es => (if e.lastHandled = some e.ess then [] else [e.t]) ++ essentialAfter e.ess es
+
+/-- The events that are essential changes (same rule as `essentialTimes`, which lists their `t`). -/
+def essentialEvsAfter : Nat → List Ev → List Ev
+  | _, [] => []
+  | prev, e :: es => (if prev = e.ess then [] else [e]) ++ essentialEvsAfter e.ess es
+
+def essentialEvs : List Ev → List Ev
+  | [] => []
+  | e :: es => (if e.lastHandled = some e.ess then [] else [e]) ++ essentialEvsAfter e.ess es
+
+/-- The idle clause counted from the RECEIPT of the change (the start of its processing cycle) instead
+    of from the instant the cycle reaches `process_spawning_cause`. -/
+def FullIdleRecv (idle : Int) (evs : List Ev) (its : List Iter) : Prop :=
+  ∀ it ∈ its, it.res.isSome = true → ∀ e ∈ essentialEvs evs, e.recv ≤ it.start → idle ≤ it.start - e.recv
+
+/-- No run starts while an essential change is being processed but has not yet reached
+    `process_spawning_cause` (the `@kopf.on.event` handlers of its cycle are still running). -/
+def NoRunDuringProcessing (evs : List Ev) (its : List Iter) : Prop :=
+  ∀ it ∈ its, it.res.isSome = true → ∀ e ∈ essentialEvs evs, ¬ (e.recv ≤ it.start ∧ it.start < e.t)
 
 /-- The property's idle clause in full: no run starts within the idle time after an essential change. -/
 def FullIdle (idle : Int) (evs : List Ev) (its : List Iter) : Prop :=
